@@ -401,5 +401,8 @@ PROPS["C03"]["explanation"] += " (CONTIG) the test that lets NCvcmaxcontig merge
 PROPS["C20"]["rules"] = PROPS["C20"]["rules"] + [rules_sd.rule_refuse_before_mutation]
 PROPS["C20"]["explanation"] += " (REFUSEFIRST) SDcreate compares the request with every documented maximum (rank, name length, number of data sets) before it first changes the file's dimension list, so a refused call leaves the file as it was."
 
+PROPS["C13"]["rules"] = PROPS["C13"]["rules"] + [rules_handles.rule_table_bound_reset]
+PROPS["C13"]["explanation"] += " (TABLEFREE) a routine that releases an id-indexed global table also resets the count that bounds the ids."
+
 NOT_APPLICABLE = {}
 
